@@ -48,7 +48,8 @@ def handleRun (rest : String) : String :=
     | some cfg, some levels =>
       let r := runCheck cfg levels
       let why := r.reason.replace " " "_"
-      s!"verdict={r.verdict} step={r.step} contested={r.contested} relinks={r.relinks} births={r.births} capped={r.cappedSteps} reason={why}"
+      let ties := if r.verdict == "ok" then toString (runTies cfg levels) else "?"
+      s!"verdict={r.verdict} step={r.step} contested={r.contested} relinks={r.relinks} births={r.births} capped={r.cappedSteps} ties={ties} reason={why}"
     | _, _ => "bad-op"
 
 def handlers : List (String × (String → String)) := [("LRUN", handleRun)]
